@@ -214,7 +214,7 @@ pub fn run(tier: Tier, seed: u64) -> i32 {
             let init_menu = vec![normal.clone(), MenuItem { step: Step::Fault(40), deviation: true, label: "fault".into() }];
             for ov in [true, false] {
                 let mut c = Case::new(&format!("{} / first layout {names:?} / {}", p.name, if ov { "Ov" } else { "Fw" }), prog.clone(), p.sigs.clone(), ov, init_menu.clone(), menu.clone(), 24);
-                c.dev_budget = 1;
+                c.dev_budget = 2;
                 c.continue_after_call_errors = true;
                 c.extra_known = vec![Sig::out("Zjunk", 4)];
                 c.w_menu = vec![MenuItem { step: Step::Fault(42), deviation: true, label: "fault at write-only call".into() }];
@@ -228,7 +228,7 @@ pub fn run(tier: Tier, seed: u64) -> i32 {
         cases.extend(extra);
         for c in cases.iter_mut() {
             if c.name.contains("flat") || c.name.contains("clock rows") || c.name.contains("virtual") {
-                c.dev_budget = 2;
+                c.dev_budget = 3;
             }
         }
     }
@@ -258,7 +258,7 @@ pub fn run(tier: Tier, seed: u64) -> i32 {
         id: "C13",
         tier,
         seed,
-        rule: "explicit-state BFS (stateright): 12 curated programs x every first layout (each subset of the output-capable signals, and the full set reversed) x 2 driver variants; at every call index the environment may answer normally, fail (constructor, output-reading and write-only calls), or depart from the first layout in every listed way (drop each entry, empty answer, append a foreign signal / a copy / an unsupplied output, duplicate over either neighbour, swap neighbours, substitute every other signal at every position); deviation budget 1 per history (2 for three programs in the thorough tier); the caller carries on after the error so that later rows are checked too; distinct_nontrivial = unique states".into(),
+        rule: "explicit-state BFS (stateright): 12 curated programs x every first layout (each subset of the output-capable signals, and the full set reversed) x 2 driver variants; at every call index the environment may answer normally, fail (constructor, output-reading and write-only calls), or depart from the first layout in every listed way (drop each entry, empty answer, append a foreign signal / a copy / an unsupplied output, duplicate over either neighbour, swap neighbours, substitute every other signal at every position); deviation budget 2 per history (3 for three programs in the thorough tier); the caller carries on after the error so that later rows are checked too; distinct_nontrivial = unique states".into(),
         assumptions: vec![
             "rows before the deviation are compared with the reference interpreter's fault-free run; the attribution rule is checked against the driver's own log for every returned row".into(),
             "a layout deviation in the discarded answer of a mid-clock call (driver without write_input override) is not specified by the property and is not injected".into(),
